@@ -187,6 +187,93 @@ class History:
                   tok is not None} if cls != 'correct' or
                  R.has_bytes(args) else None)
 
+    def do_dup_ack_race(self):
+        """The same ACK arrives twice, the second one while the callback
+        started by the first is still running (two polling POSTs in flight:
+        two tasks on the asyncio server, two threads on the threaded one).
+        The callback must still run exactly once."""
+        import threading
+        import time
+        from engineio import packet as eio_packet
+        rng, ctx, r = self.rng, self.ctx, self.r
+        d = r.d
+        T, ns = rng.choice(sorted(self.conn))
+        sid = self.conn[(T, ns)]
+        t = r.T[T]
+        self.tok += 1
+        tok = self.tok
+        calls = []
+        if d.is_async:
+            async def slow(*args):
+                calls.append(list(args))
+                await asyncio.sleep(0.5)
+        else:
+            def slow(*args):
+                calls.append(list(args))
+                time.sleep(0.03)
+        op = ['dup_ack_race', tok, sid, ns]
+        self.ops.append(op)
+        res = {'op': op, '_ev0': len(r.events)}
+        try:
+            d.api('emit', 'tok%d' % tok, {'t': tok}, to=sid, namespace=ns,
+                  callback=slow)
+        except Exception as e:
+            res['exc'] = type(e).__name__
+        r._collect(res)
+        if res.get('exc') or res.get('errors'):
+            return self.fail('emit with callback raised', res,
+                             {'after_id0_ack': self.after_id0(sid)})
+        pk = [p for p in res['sent'].get(T, [])
+              if p['type'] in (R.EVENT, R.BINARY_EVENT)]
+        if len(pk) != 1:
+            return self.fail('emit with callback sent %r' % res['sent'], res)
+        aid = pk[0]['id']
+        if aid in self.out.get(sid, {}):
+            return self.fail('ack id %r reused while still outstanding for '
+                             'the same client' % aid, res)
+        if d.serializer == 'msgpack':
+            fr = [R.msgpack_encode(R.ACK, ns, aid, ['a', tok])]
+        else:
+            text, atts = R.encode(R.ACK, ns, aid, ['a', tok])
+            fr = [text]
+        res = {'op': op, '_ev0': len(r.events)}
+        if d.is_async:
+            async def go():
+                await asyncio.gather(*[
+                    t.socket.receive(eio_packet.Packet(eio_packet.MESSAGE,
+                                                       fr[0]))
+                    for _ in range(2)])
+            d.run(go())
+        else:
+            old = d.autojoin
+            d.autojoin = False
+
+            def feed(delay):
+                time.sleep(delay)
+                t.socket.receive(eio_packet.Packet(eio_packet.MESSAGE,
+                                                   fr[0]))
+            ths = [threading.Thread(target=feed, args=(dl,), daemon=True)
+                   for dl in (0, 0.008)]
+            for th in ths:
+                th.start()
+            for th in ths:
+                th.join(10)
+            d.autojoin = old
+            d.join()
+        r._collect(res)
+        ctx.count('duplicate_ack_races')
+        if res.get('errors'):
+            return self.fail('duplicate ACK racing with its running callback '
+                             'was not handled without error', res)
+        if len(calls) != 1 or not R.deep_eq(calls[0], ['a', tok]):
+            return self.fail('callback invoked %d times when its ACK arrived '
+                             'twice, the second time while the callback was '
+                             'still running' % len(calls), res,
+                             {'invocations': calls})
+        self.used.setdefault(sid, set()).add(aid)
+        ctx.case((self.kind, 'dup_ack_race', self.cfg['serializer']),
+                 {'op': op, 'invocations': calls})
+
     def do_disconnect(self):
         rng = self.rng
         T, ns = rng.choice(sorted(self.conn))
@@ -441,6 +528,9 @@ class History:
             return
         if r < 0.20:
             return self.do_disconnect()
+        if r < (0.215 if self.kind == 'async' else 0.204):
+            # (real sleeps on the threaded server: kept rare)
+            return self.do_dup_ack_race()
         if r < 0.50:
             return self.do_emit_cb()
         if r < 0.62:
@@ -480,6 +570,7 @@ def run(ctx):
     ctx.require('ids_checked_unique', 50)
     ctx.require('calls_judged', 20)
     ctx.require('call_timeouts_observed', 5)
+    ctx.require('duplicate_ack_races', 5)
     for cls in ('correct', 'duplicate', 'zero', 'foreign', 'never_issued'):
         ctx.require('acks_' + cls, 3)
     k = 0
